@@ -75,17 +75,9 @@ Definition obs_eqb (m i : obs) : bool :=
 
 Definition hang_obs : obs := {| ob_names := []; ob_more := false; ob_last := ""; ob_err := 1; ob_after := [] |}.
 
-(* dynamic triggers of one model run *)
-Definition dyn_trig (s : store) (flag restart : bool) : option N :=
-  if flag then Some (match s with Lvl => 2 | Gen => 3 end)%N
-  else if restart then Some 4%N else None.
-
-Definition static_trig (prefix pat : string) : option N :=
-  if trig_nowild pat then Some 0%N
-  else if trig_qprefix pat then Some 1%N
-  else None.
-
-Definition first_some (a b : option N) : option N := match a with Some _ => a | None => b end.
+(* the only remaining finding: prefix and pattern given together *)
+Definition trig (prefix pat : string) : option N :=
+  if trig_both prefix pat then Some 0%N else None.
 
 (* one request: (corr, prop, trigger) *)
 Definition req_result := (bool * bool * option N)%type.
@@ -99,31 +91,27 @@ Definition live_kept (d : dirst) (after : list string) : bool :=
 Definition check_req (c : case) (start : string) (incl : bool) (limit : nat) (io : obs * obs) : list req_result :=
   let s := kind c in
   let M := spec_names (dir c) start incl (prefix c) (pat c) (excl c) in
-  let both := if trig_both (prefix c) (pat c) then Some 5%N else None in
-  let st := static_trig (prefix c) (pat c) in
+  let t := trig (prefix c) (pat c) in
   (* Filer.ListDirectoryEntries *)
-  let '(ml, tl) :=
+  let ml :=
     match list_entries s (dir c) start incl limit (prefix c) (pat c) (excl c) with
-    | None => (hang_obs, match s with Gen => Some 3%N | Lvl => None end)
+    | None => hang_obs
     | Some (names, more, r) =>
-        ({| ob_names := names; ob_more := more; ob_last := ""; ob_err := 0; ob_after := map ename (r_dir r) |},
-         dyn_trig s (r_flag r) (r_restart r))
+        {| ob_names := names; ob_more := more; ob_last := ""; ob_err := 0; ob_after := map ename (r_dir r) |}
     end in
   let il := fst io in
   let pl := N.eqb (ob_err il) 0 && strs_eqb (ob_names il) (firstn limit M) &&
             Bool.eqb (ob_more il) (Nat.ltb limit (length M)) && live_kept (dir c) (ob_after il) in
   (* Filer.StreamListDirectoryEntries *)
-  let '(ms, ts) :=
+  let ms :=
     match stream_list s (dir c) start incl limit (prefix c) (pat c) (excl c) with
-    | None => (hang_obs, match s with Gen => Some 3%N | Lvl => None end)
+    | None => hang_obs
     | Some r =>
-        ({| ob_names := r_names r; ob_more := false; ob_last := r_last r; ob_err := 0; ob_after := map ename (r_dir r) |},
-         dyn_trig s (r_flag r) (r_restart r))
+        {| ob_names := r_names r; ob_more := false; ob_last := r_last r; ob_err := 0; ob_after := map ename (r_dir r) |}
     end in
   let is_ := snd io in
   let ps := N.eqb (ob_err is_) 0 && strs_eqb (ob_names is_) (firstn limit M) && live_kept (dir c) (ob_after is_) in
-  [ (obs_eqb ml il, pl, first_some st (first_some tl both));
-    (obs_eqb ms is_, ps, first_some st (first_some ts both)) ].
+  [ (obs_eqb ml il, pl, t); (obs_eqb ms is_, ps, t) ].
 
 (* the grid in the harness' order *)
 Fixpoint zip_grid (c : case) (grid : list (string * bool * nat)) (rs : list rcode) : option (list req_result) :=
@@ -145,14 +133,9 @@ Definition all_within (limit : nat) (pages : list (list string)) : bool :=
 
 Definition check_pg (c : case) (p : pg) : list req_result :=
   let s := kind c in
-  let both := if trig_both (prefix c) (pat c) then Some 5%N else None in
-  let st := static_trig (prefix c) (pat c) in
+  let t := trig (prefix c) (pat c) in
   let M := spec_names (dir c) "" false (prefix c) (pat c) (excl c) in
-  let '(ml, tl) :=
-    match paginate 40 s (dir c) "" false (pg_limit p) (prefix c) (pat c) (excl c) with
-    | None => (None, match s with Gen => Some 3%N | Lvl => None end)
-    | Some (pgs, fl, rs) => (Some pgs, dyn_trig s fl rs)
-    end in
+  let ml := paginate 40 s (dir c) "" false (pg_limit p) (prefix c) (pat c) (excl c) in
   let tbl := map ename (dir c) in
   let il := option_map (map (names_of tbl)) (pg_list p) in
   let is_ := option_map (map (names_of tbl)) (pg_stream p) in
@@ -162,23 +145,19 @@ Definition check_pg (c : case) (p : pg) : list req_result :=
             end in
   (* gRPC-style: prefix only (the server passes no patterns) *)
   let M0 := spec_names (dir c) "" false (prefix c) "" "" in
-  let '(ms, ts) :=
-    match paginate_stream 40 s (dir c) "" false (pg_limit p) (prefix c) with
-    | None => (None, match s with Gen => Some 3%N | Lvl => None end)
-    | Some (pgs, fl, rs) => (Some pgs, dyn_trig s fl rs)
-    end in
+  let ms := paginate_stream 40 s (dir c) "" false (pg_limit p) (prefix c) in
   let ps := match is_ with
             | Some pgs => strs_eqb (List.concat pgs) M0 && all_within (pg_limit p) pgs
             | None => false
             end in
-  [ (opages_eqb ml il, pl, first_some st (first_some tl both));
-    (opages_eqb ms is_, ps, ts) ].
+  [ (opages_eqb ml il, pl, t); (opages_eqb ms is_, ps, None) ].
 
 Definition glob_ok (g : string * string * bool) : bool :=
   let '(p, n, b) := g in Bool.eqb (glob p n) b.
 
 Definition check (c : case) : outcome :=
   let pre := wfb (dir c) && forallb glob_ok (globs c) &&
+             plain_pattern (pat c) && plain_pattern (excl c) &&
              String.eqb (fst (split_pattern (pat c))) (fst (split c)) &&
              String.eqb (snd (split_pattern (pat c))) (snd (split c)) in
   match zip_grid c (grid_of (starts c) (limits c)) (res c) with
